@@ -1,5 +1,6 @@
 from __future__ import annotations
 
+import copy
 import struct
 
 from spacepackets import BytesTooShortError
@@ -52,10 +53,13 @@ tc_psc=PacketSeqCtrl(seq_flags=<SequenceFlags.UNSEGMENTED: 3>, seq_count=17), cc
 
     @classmethod
     def from_sp_header(cls, header: SpacePacketHeader) -> RequestId:
+        # The request ID keeps its own copies of the packet ID and the packet sequence control.
+        # It is used as a dictionary key (PusVerificator) and inside verification reports and
+        # must not change when the header it was read from is modified afterwards.
         return cls(
             ccsds_version=header.ccsds_version,
-            tc_packet_id=header.packet_id,
-            tc_psc=header._psc,
+            tc_packet_id=copy.copy(header.packet_id),
+            tc_psc=copy.copy(header._psc),
         )
 
     def pack(self) -> bytes:
